@@ -146,6 +146,27 @@ def run(chk, tier, seed):
     chk.cov["traces_validated_against_impl"] += len(terms)
     chk.add_eval(len(meta) + len(progs))
     chk.cov["fault_offsets_enumerated"] = sum(len(obs.get(c, " ").split(" ")[-1]) for c, m in meta.items() if m["kind"] in ("wfault", "rfault"))
+    # ---- through a buffering writer (what save_file does): when save returns Ok everything must have reached the sink ----
+    bl = []
+    for ri, r in pick[:6 if tier == "quick" else 25]:
+        for cont in ("plain", "noschema", "bzip2", "crypto"):
+            bl.append("W%d_%s ty_wfaultbuf %d %s %d 0 %d" % (ri, cont, ri, cont, r.get("curver", 0), 0 if cont in ("bzip2", "crypto") else rng.choice([0, 1])))
+    bobs = C.run_harness(binary, bl, timeout=900)
+    nb = 0
+    for l in bl:
+        o = bobs.get(l.split(" ")[0], "MISSING")
+        p_ = o.split(" ")
+        if len(p_) != 2 or not p_[0].isdigit():
+            chk.violations.append(("saving through a buffering writer onto a failing sink did not complete: " + o[:80], {"harness_line": l}))
+            continue
+        nb += len(p_[1])
+        bad_ = [k for k, ch in enumerate(p_[1]) if ch in "UP" or (ch == "K" and k != int(p_[0]))]
+        if bad_:
+            k = bad_[0]
+            chk.violations.append(("save through a BufWriter onto a sink that fails after %d of %s bytes %s" % (k, p_[0], "returns Ok although bytes are still unwritten (the failure is swallowed)" if p_[1][k] in "UK" else "panics"),
+                                   {"harness_line": l, "classes": p_[1][-80:], "type": TG.rust_ty(U["roots"][int(l.split(" ")[2])]["ty"])}))
+    chk.add_eval(nb)
+    chk.cov["buffered_writer_fault_offsets"] = nb
     # ---- CryptoReader state machine: served read_exact requests under chunk / Interrupted / fault schedules (CryptoIo.v) ----
     progs = ["w5,f,w3", "w1", "w0", "-", "w40,f,w1,f,w17", "w30", "f,w9,f", "w12,w13,f,w2"]
     slines, smeta = [], {}
